@@ -1,16 +1,633 @@
-//! Group adapter (stub; filled in with the curve work).
+//! Uniform adapter over the nine groups of crrl + point sources shared by C03, C04, C06, C10, C20.
+
+#![allow(non_snake_case)]
+
 use crate::engine::*;
+use crate::fieldapi::PF;
+use num_bigint::BigUint;
+use num_traits::Zero;
 use proptest::prelude::*;
+use refmodel::curves::{self, Pt, RefGroup};
+use refmodel::pf;
 use serde::{Deserialize, Serialize};
+use std::sync::OnceLock;
+
+pub const GROUP_NAMES: &[&str] = &["ed25519", "ed448", "p256", "secp256k1", "jq255e", "jq255s", "gls254", "ristretto255", "decaf448"];
+pub const NGROUPS: usize = 9;
+
+pub fn is_edwards(g: usize) -> bool {
+    g < 2
+}
+pub fn is_weierstrass(g: usize) -> bool {
+    g == 2 || g == 3
+}
+pub fn is_quotient(g: usize) -> bool {
+    g == 7 || g == 8
+}
+
+pub struct Refs {
+    pub groups: Vec<Box<dyn RefGroup>>,
+    pub ed25519: curves::Edwards,
+    pub ed448: curves::Edwards,
+    pub p256: curves::Weierstrass,
+    pub secp256k1: curves::Weierstrass,
+    pub r255: curves::Ristretto255,
+    pub d448: curves::Decaf448,
+    /// low-order points of the two Edwards curves (index 0 = neutral)
+    pub torsion: [Vec<Pt>; 2],
+}
+
+pub fn refs() -> &'static Refs {
+    static R: OnceLock<Refs> = OnceLock::new();
+    R.get_or_init(|| {
+        let e1 = curves::ed25519();
+        let e2 = curves::ed448();
+        let t1 = e1.torsion_points();
+        let t2 = e2.torsion_points();
+        Refs {
+            groups: vec![
+                Box::new(curves::ed25519()),
+                Box::new(curves::ed448()),
+                Box::new(curves::p256()),
+                Box::new(curves::secp256k1()),
+                Box::new(curves::jq255e()),
+                Box::new(curves::jq255s()),
+                Box::new(curves::gls254()),
+                Box::new(curves::ristretto255()),
+                Box::new(curves::decaf448()),
+            ],
+            ed25519: e1,
+            ed448: e2,
+            p256: curves::p256(),
+            secp256k1: curves::secp256k1(),
+            r255: curves::ristretto255(),
+            d448: curves::decaf448(),
+            torsion: [t1, t2],
+        }
+    })
+}
+
+pub fn rg(g: usize) -> &'static dyn RefGroup {
+    &*refs().groups[g]
+}
+
+// ------------------------------------------------------------------ adapter
+
+pub trait Grp: Copy + Send + Sync + 'static {
+    type S: PF;
+    const G: usize;
+    fn neutral() -> Self;
+    fn base() -> Self;
+    /// form 0 = decode(), 1 = set_decode() on a non-neutral instance (status must be all-ones / zero, failure leaves the neutral)
+    fn decode(b: &[u8], form: u8) -> Result<Option<Self>, String>;
+    fn encode(self) -> Vec<u8>;
+    fn add(a: Self, b: Self, form: u8) -> Self;
+    fn sub(a: Self, b: Self, form: u8) -> Self;
+    fn neg(a: Self, form: u8) -> Self;
+    fn double(a: Self, form: u8) -> Self;
+    fn xdouble(a: Self, n: u32, form: u8) -> Self;
+    fn mul_small(a: Self, n: u64, form: u8) -> Self;
+    fn equals(a: Self, b: Self) -> u32;
+    fn isneutral(a: Self) -> u32;
+    fn mul(a: Self, s: &Self::S, form: u8) -> Self;
+    fn mulgen(s: &Self::S, form: u8) -> Self;
+    fn set_cond(a: &mut Self, b: &Self, ctl: u32);
+    fn select(a: &Self, b: &Self, ctl: u32) -> Self;
+    fn set_condneg(a: &mut Self, ctl: u32);
+    fn mul_add_mulgen_vartime(a: Self, u: &Self::S, v: &Self::S, form: u8) -> Self;
+}
+
+macro_rules! grp_common {
+    ($P:ty, $S:ty) => {
+        fn neutral() -> Self { <$P>::NEUTRAL }
+        fn base() -> Self { <$P>::BASE }
+        fn decode(b: &[u8], form: u8) -> Result<Option<Self>, String> {
+            if form % 2 == 0 {
+                Ok(<$P>::decode(b))
+            } else {
+                let mut p = <$P>::BASE;
+                let s = p.set_decode(b);
+                if s == 0xFFFFFFFF {
+                    Ok(Some(p))
+                } else if s == 0 {
+                    if p.isneutral() != 0xFFFFFFFF {
+                        return Err("set_decode failed but did not leave the neutral".into());
+                    }
+                    Ok(None)
+                } else {
+                    Err(format!("set_decode status {s:08x}"))
+                }
+            }
+        }
+        fn add(a: Self, b: Self, form: u8) -> Self {
+            match form % 6 { 0 => a + b, 1 => &a + &b, 2 => { let mut r = a; r += b; r } 3 => { let mut r = a; r += &b; r } 4 => a + &b, _ => &a + b }
+        }
+        fn sub(a: Self, b: Self, form: u8) -> Self {
+            match form % 6 { 0 => a - b, 1 => &a - &b, 2 => { let mut r = a; r -= b; r } 3 => { let mut r = a; r -= &b; r } 4 => a - &b, _ => &a - b }
+        }
+        fn neg(a: Self, form: u8) -> Self {
+            match form % 3 { 0 => -a, 1 => -&a, _ => { let mut r = a; r.set_neg(); r } }
+        }
+        fn double(a: Self, form: u8) -> Self {
+            match form % 2 { 0 => a.double(), _ => { let mut r = a; r.set_double(); r } }
+        }
+        fn xdouble(a: Self, n: u32, form: u8) -> Self {
+            match form % 2 { 0 => a.xdouble(n), _ => { let mut r = a; r.set_xdouble(n); r } }
+        }
+        fn equals(a: Self, b: Self) -> u32 { a.equals(b) }
+        fn isneutral(a: Self) -> u32 { a.isneutral() }
+        fn mul(a: Self, s: &$S, form: u8) -> Self {
+            match form % 6 { 0 => a * s, 1 => a * *s, 2 => s * a, 3 => *s * &a, 4 => { let mut r = a; r *= s; r } _ => &a * s }
+        }
+        fn set_cond(a: &mut Self, b: &Self, ctl: u32) { a.set_cond(b, ctl) }
+        fn select(a: &Self, b: &Self, ctl: u32) -> Self { <$P>::select(a, b, ctl) }
+        fn set_condneg(a: &mut Self, ctl: u32) { a.set_condneg(ctl) }
+    };
+}
+
+macro_rules! grp_mul_small_set {
+    () => {
+        fn mul_small(a: Self, n: u64, form: u8) -> Self {
+            match form % 4 { 0 => a * n, 1 => n * a, 2 => { let mut r = a; r.set_mul_small(n); r } _ => { let mut r = a; r *= n; r } }
+        }
+    };
+}
+macro_rules! grp_mul_small_ops {
+    () => {
+        fn mul_small(a: Self, n: u64, form: u8) -> Self {
+            match form % 4 { 0 => a * n, 1 => n * a, 2 => n * &a, _ => { let mut r = a; r *= n; r } }
+        }
+    };
+}
+macro_rules! grp_mulgen_set {
+    ($P:ty) => {
+        fn mulgen(s: &Self::S, form: u8) -> Self {
+            match form % 3 { 0 => <$P>::mulgen(s), 1 => { let mut r = <$P>::NEUTRAL; r.set_mulgen(s); r } _ => <$P>::BASE * s }
+        }
+    };
+}
+macro_rules! grp_mamv_set {
+    () => {
+        fn mul_add_mulgen_vartime(a: Self, u: &Self::S, v: &Self::S, form: u8) -> Self {
+            match form % 2 { 0 => a.mul_add_mulgen_vartime(u, v), _ => { let mut r = a; r.set_mul_add_mulgen_vartime(u, v); r } }
+        }
+    };
+}
+macro_rules! grp_mamv_val {
+    () => {
+        fn mul_add_mulgen_vartime(a: Self, u: &Self::S, v: &Self::S, _form: u8) -> Self {
+            a.mul_add_mulgen_vartime(u, v)
+        }
+    };
+}
+
+macro_rules! impl_grp {
+    ($P:ty, $S:ty, $g:expr, enc = $enc:ident, $ms:ident, $mamv:ident) => {
+        impl Grp for $P {
+            type S = $S;
+            const G: usize = $g;
+            grp_common!($P, $S);
+            fn encode(self) -> Vec<u8> { self.$enc().to_vec() }
+            $ms!();
+            grp_mulgen_set!($P);
+            $mamv!();
+        }
+    };
+}
+
+impl_grp!(crrl::ed25519::Point, crrl::ed25519::Scalar, 0, enc = encode, grp_mul_small_set, grp_mamv_set);
+impl_grp!(crrl::ed448::Point, crrl::ed448::Scalar, 1, enc = encode, grp_mul_small_set, grp_mamv_set);
+impl_grp!(crrl::p256::Point, crrl::p256::Scalar, 2, enc = encode_compressed, grp_mul_small_set, grp_mamv_set);
+impl_grp!(crrl::secp256k1::Point, crrl::secp256k1::Scalar, 3, enc = encode_compressed, grp_mul_small_set, grp_mamv_set);
+impl_grp!(crrl::jq255e::Point, crrl::jq255e::Scalar, 4, enc = encode, grp_mul_small_set, grp_mamv_set);
+impl_grp!(crrl::jq255s::Point, crrl::jq255s::Scalar, 5, enc = encode, grp_mul_small_set, grp_mamv_set);
+impl_grp!(crrl::gls254::Point, crrl::gls254::Scalar, 6, enc = encode, grp_mul_small_set, grp_mamv_set);
+impl_grp!(crrl::ristretto255::Point, crrl::ristretto255::Scalar, 7, enc = encode, grp_mul_small_ops, grp_mamv_val);
+impl_grp!(crrl::decaf448::Point, crrl::decaf448::Scalar, 8, enc = encode, grp_mul_small_ops, grp_mamv_val);
+
+/// Dispatch a generic function over the group index.
+#[macro_export]
+macro_rules! with_group {
+    ($g:expr, $f:ident ( $($a:expr),* )) => {
+        match $g {
+            0 => $f::<crrl::ed25519::Point>($($a),*),
+            1 => $f::<crrl::ed448::Point>($($a),*),
+            2 => $f::<crrl::p256::Point>($($a),*),
+            3 => $f::<crrl::secp256k1::Point>($($a),*),
+            4 => $f::<crrl::jq255e::Point>($($a),*),
+            5 => $f::<crrl::jq255s::Point>($($a),*),
+            6 => $f::<crrl::gls254::Point>($($a),*),
+            7 => $f::<crrl::ristretto255::Point>($($a),*),
+            _ => $f::<crrl::decaf448::Point>($($a),*),
+        }
+    };
+}
+
+pub fn scalar_of<G: Grp>(k: &BigUint) -> G::S {
+    let n = <G::S as PF>::modulus();
+    let kb = pf::to_le(&(k % &n), <G::S as PF>::enc_len());
+    <G::S as PF>::decode_reduce(&kb, 0)
+}
+
+// ------------------------------------------------------------------ point sources
+
+/// How a point is obtained through the public API (all inputs are bytes / integers).
+#[derive(Clone, Debug, Hash, Serialize, Deserialize, PartialEq, Eq)]
+pub enum PSrc {
+    Neutral,
+    Base,
+    /// k*B for a small signed k, through mul_small and negation
+    Small(i32),
+    /// decode of a valid encoding (produced on the reference side)
+    Enc(Vec<u8>),
+    /// Edwards only: the low-order point of index i (decoded from its encoding)
+    Torsion(u8),
+    /// Edwards only: decode(enc) + torsion point i
+    Mixed(Vec<u8>, u8),
+    /// Weierstrass only: from_projective(lambda*x, lambda*y, lambda) of the decoded point (lambda != 0)
+    Proj(Vec<u8>, Vec<u8>),
+    /// Weierstrass only: the neutral given as (X : Y : 0)
+    ProjInf(Vec<u8>, Vec<u8>),
+    /// ristretto255 / decaf448: one_way_map of 64 / 112 bytes
+    Map(Vec<u8>),
+    /// jq255e / jq255s / gls254: hash_to_curve("", data)
+    Hash(Vec<u8>),
+    /// ristretto255 / decaf448 with hooks: the representative of decode(enc) shifted by the i-th admissible torsion point
+    Rep(Vec<u8>, u8),
+}
+
+#[derive(Clone, Debug, Hash, Serialize, Deserialize, PartialEq, Eq)]
+pub struct PV {
+    pub src: PSrc,
+    /// (op, operand): 0 add, 1 sub, 2 double, 3 neg, 4 xdouble(3), 5 mul_small(3), 6 add self
+    pub chain: Vec<(u8, PSrc)>,
+}
+
+pub const NPCHAIN: u8 = 7;
+
+fn tors_index(g: usize, i: u8) -> usize {
+    (i as usize) % refs().torsion[g].len()
+}
+
+pub fn build_src<G: Grp>(s: &PSrc) -> G {
+    let g = G::G;
+    match s {
+        PSrc::Neutral => G::neutral(),
+        PSrc::Base => G::base(),
+        PSrc::Small(k) => {
+            let p = G::mul_small(G::base(), k.unsigned_abs() as u64, 0);
+            if *k < 0 { G::neg(p, 0) } else { p }
+        }
+        PSrc::Enc(b) => G::decode(b, 0).ok().flatten().expect("generator produced an encoding that crrl rejects (reported by C06)"),
+        PSrc::Torsion(i) => {
+            let t = &refs().torsion[g][tors_index(g, *i)];
+            G::decode(&rg(g).encode(t), 0).ok().flatten().expect("torsion point must decode")
+        }
+        PSrc::Mixed(b, i) => {
+            let a: G = build_src(&PSrc::Enc(b.clone()));
+            let t: G = build_src(&PSrc::Torsion(*i));
+            G::add(a, t, 0)
+        }
+        PSrc::Proj(b, lam) => build_proj::<G>(b, lam, false),
+        PSrc::ProjInf(x, y) => build_proj::<G>(x, y, true),
+        PSrc::Map(b) => build_map::<G>(b),
+        PSrc::Hash(d) => build_hash::<G>(d),
+        PSrc::Rep(b, i) => build_rep::<G>(b, *i),
+    }
+}
+
+fn build_proj<G: Grp>(a: &[u8], b: &[u8], inf: bool) -> G {
+    use std::any::Any;
+    let out: Box<dyn Any> = match G::G {
+        2 => {
+            use crrl::field::GFp256 as F;
+            use crrl::p256::Point as P;
+            if inf {
+                let (x, y) = (F::decode_reduce(a), F::decode_reduce(b));
+                Box::new(P::from_projective(x, y, F::ZERO).expect("(X:Y:0) must be accepted as the neutral"))
+            } else {
+                let p = P::decode(a).unwrap();
+                let (x, y, _) = p.to_affine();
+                let mut l = F::decode_reduce(b);
+                if l.iszero() != 0 { l = F::ONE; }
+                Box::new(P::from_projective(x * l, y * l, l).expect("scaled projective coordinates must be accepted"))
+            }
+        }
+        3 => {
+            use crrl::field::GFsecp256k1 as F;
+            use crrl::secp256k1::Point as P;
+            if inf {
+                let (x, y) = (F::decode_reduce(a), F::decode_reduce(b));
+                Box::new(P::from_projective(x, y, F::ZERO).expect("(X:Y:0) must be accepted as the neutral"))
+            } else {
+                let p = P::decode(a).unwrap();
+                let (x, y, _) = p.to_affine();
+                let mut l = F::decode_reduce(b);
+                if l.iszero() != 0 { l = F::ONE; }
+                Box::new(P::from_projective(x * l, y * l, l).expect("scaled projective coordinates must be accepted"))
+            }
+        }
+        _ => panic!("Proj source on a non-Weierstrass group"),
+    };
+    *out.downcast::<G>().ok().expect("type mismatch")
+}
+
+fn build_map<G: Grp>(b: &[u8]) -> G {
+    use std::any::Any;
+    let out: Box<dyn Any> = match G::G {
+        7 => Box::new(crrl::ristretto255::Point::one_way_map(b)),
+        8 => Box::new(crrl::decaf448::Point::one_way_map(b)),
+        _ => panic!("Map source on a group without one_way_map"),
+    };
+    *out.downcast::<G>().ok().expect("type mismatch")
+}
+
+fn build_hash<G: Grp>(d: &[u8]) -> G {
+    use std::any::Any;
+    let out: Box<dyn Any> = match G::G {
+        4 => Box::new(crrl::jq255e::Point::hash_to_curve("", d)),
+        5 => Box::new(crrl::jq255s::Point::hash_to_curve("", d)),
+        6 => Box::new(crrl::gls254::Point::hash_to_curve("", d)),
+        _ => panic!("Hash source on a group without hash_to_curve"),
+    };
+    *out.downcast::<G>().ok().expect("type mismatch")
+}
+
+#[cfg(feature = "hooks")]
+fn build_rep<G: Grp>(b: &[u8], i: u8) -> G {
+    use std::any::Any;
+    let out: Box<dyn Any> = match G::G {
+        7 => {
+            // admissible shifts: the 4-torsion subgroup (doubles of the 8-torsion points)
+            let inner = crrl::ristretto255::Point::decode(b).unwrap().verif_inner();
+            let t8: crrl::ed25519::Point = build_src(&PSrc::Torsion(i));
+            Box::new(crrl::ristretto255::Point::verif_from_inner(inner + t8.double()))
+        }
+        8 => {
+            let inner = crrl::decaf448::Point::decode(b).unwrap().verif_inner();
+            let t4: crrl::ed448::Point = build_src(&PSrc::Torsion(i));
+            Box::new(crrl::decaf448::Point::verif_from_inner(inner + t4.double()))
+        }
+        _ => panic!("Rep source on a non-quotient group"),
+    };
+    *out.downcast::<G>().ok().expect("type mismatch")
+}
+#[cfg(not(feature = "hooks"))]
+fn build_rep<G: Grp>(b: &[u8], _i: u8) -> G {
+    build_src(&PSrc::Enc(b.to_vec()))
+}
+
+fn apply_chain<G: Grp>(x: G, op: u8, y: G) -> G {
+    match op % NPCHAIN {
+        0 => G::add(x, y, 0),
+        1 => G::sub(x, y, 0),
+        2 => G::double(x, 0),
+        3 => G::neg(x, 0),
+        4 => G::xdouble(x, 3, 0),
+        5 => G::mul_small(x, 3, 0),
+        _ => G::add(x, x, 0),
+    }
+}
+
+pub fn build_pv<G: Grp>(v: &PV) -> G {
+    let mut x: G = build_src(&v.src);
+    for (op, s) in &v.chain {
+        let y: G = build_src(s);
+        x = apply_chain(x, *op, y);
+    }
+    x
+}
+
+/// reference value of a source. For the quotient groups the value is a representative of the element.
+pub fn ref_src(g: usize, s: &PSrc) -> Pt {
+    let r = rg(g);
+    match s {
+        PSrc::Neutral => r.neutral(),
+        PSrc::Base => r.base(),
+        PSrc::Small(k) => {
+            let p = r.mul(&BigUint::from(k.unsigned_abs()), &r.base());
+            if *k < 0 { r.neg(&p) } else { p }
+        }
+        PSrc::Enc(b) | PSrc::Proj(b, _) | PSrc::Rep(b, _) => r.decode(b).expect("reference rejects a generated encoding"),
+        PSrc::ProjInf(_, _) => Pt::Inf,
+        PSrc::Torsion(i) => refs().torsion[g][tors_index(g, *i)].clone(),
+        PSrc::Mixed(b, i) => r.add(&r.decode(b).unwrap(), &refs().torsion[g][tors_index(g, *i)]),
+        PSrc::Map(b) => {
+            if g == 7 { refs().r255.one_way_map(b) } else { refs().d448.one_way_map(b) }
+        }
+        // hash_to_curve has no independent reference here: the point is taken from crrl's output, which is first
+        // required to be a valid element (decodable by the reference)
+        PSrc::Hash(d) => {
+            let enc = match g {
+                4 => crrl::jq255e::Point::hash_to_curve("", d).encode().to_vec(),
+                5 => crrl::jq255s::Point::hash_to_curve("", d).encode().to_vec(),
+                _ => crrl::gls254::Point::hash_to_curve("", d).encode().to_vec(),
+            };
+            r.decode(&enc).expect("hash_to_curve output is not a valid element")
+        }
+    }
+}
+
+pub fn ref_pv(g: usize, v: &PV) -> Pt {
+    let r = rg(g);
+    let mut x = ref_src(g, &v.src);
+    for (op, s) in &v.chain {
+        let y = ref_src(g, s);
+        x = match op % NPCHAIN {
+            0 => r.add(&x, &y),
+            1 => r.sub(&x, &y),
+            2 => r.double(&x),
+            3 => r.neg(&x),
+            4 => r.double(&r.double(&r.double(&x))),
+            5 => r.add(&r.double(&x), &x),
+            _ => r.add(&x, &x),
+        };
+    }
+    x
+}
+
+// ------------------------------------------------------------------ generators
+
+/// a valid encoding of a (close to) uniform element, sampled on the reference side
+pub fn enc_strategy(g: usize) -> BoxedStrategy<Vec<u8>> {
+    let r = rg(g);
+    let len = r.enc_len();
+    match g {
+        0 | 1 => {
+            // random y, first y' >= y on the curve, random sign
+            (prop::collection::vec(any::<u8>(), len), any::<bool>())
+                .prop_map(move |(raw, sign)| {
+                    let e = if g == 0 { &refs().ed25519 } else { &refs().ed448 };
+                    let mut y = pf::from_le(&raw) % &e.p;
+                    loop {
+                        if let Some(x) = e.recover_x(&y, sign && !y.is_zero()) {
+                            if !(x.is_zero() && sign) {
+                                return e.encode(&Pt::A(x, y));
+                            }
+                        }
+                        y = (y + 1u32) % &e.p;
+                    }
+                })
+                .boxed()
+        }
+        2 | 3 => (prop::collection::vec(any::<u8>(), 32), any::<bool>())
+            .prop_map(move |(raw, odd)| {
+                let w = if g == 2 { &refs().p256 } else { &refs().secp256k1 };
+                let mut x = pf::from_le(&raw) % &w.p;
+                loop {
+                    if let Some(p) = w.lift_x(&x, odd) {
+                        return w.encode(&p);
+                    }
+                    x = (x + 1u32) % &w.p;
+                }
+            })
+            .boxed(),
+        4 | 5 | 6 => prop::collection::vec(any::<u8>(), 32)
+            .prop_map(move |mut raw| {
+                let r = rg(g);
+                raw[31] &= 0x7F;
+                if g == 6 {
+                    raw[15] &= 0x7F;
+                }
+                loop {
+                    if let Some(p) = r.decode(&raw) {
+                        return r.encode(&p);
+                    }
+                    // next candidate
+                    for b in raw.iter_mut() {
+                        *b = b.wrapping_add(1);
+                        if *b != 0 {
+                            break;
+                        }
+                    }
+                    raw[31] &= 0x7F;
+                    if g == 6 {
+                        raw[15] &= 0x7F;
+                    }
+                }
+            })
+            .boxed(),
+        _ => {
+            // ristretto255 / decaf448: double of a curve point is in the even subgroup
+            (prop::collection::vec(any::<u8>(), len + 1), any::<bool>())
+                .prop_map(move |(raw, sign)| {
+                    let (e, r): (&curves::Edwards, &dyn RefGroup) = if g == 7 { (&refs().r255.e, &refs().r255) } else { (&refs().d448.e, &refs().d448) };
+                    let mut y = pf::from_le(&raw) % &e.p;
+                    loop {
+                        if let Some(x) = e.recover_x(&y, sign) {
+                            let p = Pt::A(x, y.clone());
+                            return r.encode(&e.add(&p, &p));
+                        }
+                        y = (y + 1u32) % &e.p;
+                    }
+                })
+                .boxed()
+        }
+    }
+}
+
+pub const PSRC_CLASSES: &[&str] = &["neutral", "base", "small", "uniform", "special"];
+
+/// point source of a given class; "special" is the group-specific family (torsion / mixed-order, scaled projective,
+/// map outputs, shifted representatives)
+pub fn psrc_strategy(g: usize, class: usize) -> BoxedStrategy<PSrc> {
+    match PSRC_CLASSES[class % PSRC_CLASSES.len()] {
+        "neutral" => {
+            if is_weierstrass(g) {
+                prop_oneof![Just(PSrc::Neutral), (prop::collection::vec(any::<u8>(), 32), prop::collection::vec(any::<u8>(), 32)).prop_map(|(x, y)| PSrc::ProjInf(x, y))].boxed()
+            } else {
+                Just(PSrc::Neutral).boxed()
+            }
+        }
+        "base" => prop_oneof![Just(PSrc::Base), Just(PSrc::Small(1)), Just(PSrc::Small(-1))].boxed(),
+        "small" => (-40i32..=40).prop_map(PSrc::Small).boxed(),
+        "uniform" => enc_strategy(g).prop_map(PSrc::Enc).boxed(),
+        _ => match g {
+            0 | 1 => prop_oneof![
+                1 => any::<u8>().prop_map(PSrc::Torsion),
+                2 => (enc_strategy(g), any::<u8>()).prop_map(|(e, i)| PSrc::Mixed(e, i)),
+            ]
+            .boxed(),
+            2 | 3 => (enc_strategy(g), prop::collection::vec(any::<u8>(), 32)).prop_map(|(e, l)| PSrc::Proj(e, l)).boxed(),
+            4 | 5 | 6 => prop::collection::vec(any::<u8>(), 0..40).prop_map(PSrc::Hash).boxed(),
+            _ => {
+                let n = if g == 7 { 64 } else { 112 };
+                prop_oneof![
+                    1 => prop::collection::vec(any::<u8>(), n).prop_map(PSrc::Map),
+                    1 => (enc_strategy(g), any::<u8>()).prop_map(|(e, i)| PSrc::Rep(e, i)),
+                ]
+                .boxed()
+            }
+        },
+    }
+}
+
+pub fn any_psrc(g: usize) -> BoxedStrategy<PSrc> {
+    (0..PSRC_CLASSES.len()).prop_flat_map(move |c| psrc_strategy(g, c)).boxed()
+}
+
+pub fn pv_strategy(g: usize, class: usize, chain: bool) -> BoxedStrategy<PV> {
+    if !chain {
+        return psrc_strategy(g, class).prop_map(|src| PV { src, chain: vec![] }).boxed();
+    }
+    (psrc_strategy(g, class), prop::collection::vec((0u8..NPCHAIN, any_psrc(g)), 1..4)).prop_map(|(src, chain)| PV { src, chain }).boxed()
+}
+
+pub fn any_pv(g: usize) -> BoxedStrategy<PV> {
+    (0..PSRC_CLASSES.len(), prop::bool::weighted(0.35)).prop_flat_map(move |(c, ch)| pv_strategy(g, c, ch)).boxed()
+}
+
+/// scalar strategy for a group (integer below the group order, structured classes)
+pub fn gscalar(g: usize, class: usize) -> BoxedStrategy<Vec<u8>> {
+    crate::gen::scalar_strategy(&rg(g).order(), class).prop_map(|k| k.to_bytes_le()).boxed()
+}
+pub fn any_gscalar(g: usize) -> BoxedStrategy<Vec<u8>> {
+    crate::gen::any_scalar(&rg(g).order()).prop_map(|k| k.to_bytes_le()).boxed()
+}
+
+// ------------------------------------------------------------------ C20 (points)
 
 #[derive(Clone, Debug, Hash, Serialize, Deserialize)]
 pub struct SelCase {
     pub g: u8,
+    pub a: PV,
+    pub b: PV,
+    pub same: bool,
 }
-pub const GROUP_NAMES: &[&str] = &[];
+
 pub fn sel_strategy(g: usize) -> BoxedStrategy<SelCase> {
-    Just(SelCase { g: g as u8 }).boxed()
+    (any_pv(g), any_pv(g), prop::bool::weighted(0.25)).prop_map(move |(a, b, same)| SelCase { g: g as u8, a, b, same }).boxed()
 }
-pub fn check_sel(_c: &SelCase) -> Outcome {
-    Outcome::pass(false)
+
+fn check_sel_g<G: Grp>(c: &SelCase) -> Outcome {
+    let mut acc = Acc::new();
+    let g = G::G;
+    let r = rg(g);
+    let name = GROUP_NAMES[g];
+    let b_pv = if c.same { &c.a } else { &c.b };
+    let (pa, pb): (G, G) = (build_pv(&c.a), build_pv(b_pv));
+    let (ra, rb) = (ref_pv(g, &c.a), ref_pv(g, b_pv));
+    let (ea, eb) = (r.encode(&ra), r.encode(&rb));
+    acc.nt(c.same || !c.a.chain.is_empty() || ea == eb || r.is_neutral(&ra));
+    for ctl in [0u32, 0xFFFFFFFF] {
+        let exp = if ctl == 0 { &ea } else { &eb };
+        let got = guard(|| { let mut x = pa; G::set_cond(&mut x, &pb, ctl); x.encode() });
+        acc.check(got.as_ref().ok() == Some(exp), || format!("C20:{name}:set_cond"), || format!("set_cond({ctl:08x}) -> {:?} expected {}", got.as_ref().map(|b| hex(b)), hex(exp)));
+        let got = guard(|| G::select(&pa, &pb, ctl).encode());
+        acc.check(got.as_ref().ok() == Some(exp), || format!("C20:{name}:select"), || format!("select({ctl:08x}) -> {:?} expected {}", got.as_ref().map(|b| hex(b)), hex(exp)));
+        let expn = if ctl == 0 { ea.clone() } else { r.encode(&r.neg(&ra)) };
+        let got = guard(|| { let mut x = pa; G::set_condneg(&mut x, ctl); x.encode() });
+        acc.check(got.as_ref().ok() == Some(&expn), || format!("C20:{name}:set_condneg"), || format!("set_condneg({ctl:08x}) -> {:?} expected {}", got.as_ref().map(|b| hex(b)), hex(&expn)));
+    }
+    let eq = if ea == eb { 0xFFFFFFFFu32 } else { 0 };
+    let got = guard(|| (G::equals(pa, pb), G::equals(pb, pa)));
+    acc.check(got.as_ref().ok() == Some(&(eq, eq)), || format!("C20:{name}:equals"), || format!("equals -> {:?} expected {eq:08x}", got));
+    let isn = if r.is_neutral(&ra) { 0xFFFFFFFFu32 } else { 0 };
+    let got = guard(|| G::isneutral(pa));
+    acc.check(got.as_ref().ok() == Some(&isn), || format!("C20:{name}:isneutral"), || format!("isneutral -> {:?} expected {isn:08x}", got));
+    acc.done()
+}
+
+pub fn check_sel(c: &SelCase) -> Outcome {
+    with_group!(c.g as usize, check_sel_g(c))
 }
